@@ -23,9 +23,9 @@ def results(out):
     res = {}
     cur = None
     for l in out.splitlines():
-        m = re.match(r"\s+Running (\S+)", l)
+        m = re.match(r"\s+Running (.+)$", l)
         if m:
-            cur = m.group(1)
+            cur = m.group(1).strip()
         m = re.match(r"\s+Doc-tests (\S+)", l)
         if m:
             cur = "doc:" + m.group(1)
